@@ -543,9 +543,9 @@ def tdb_rules(ctx, A):
         if g.kind == 'reject' and cp and cp[1][0] == 'bin' and cp[1][1] == 'Rem' and is_int(cp[2], 0) and cp[0] in ('Ne', 'Gt'):
             if strip(cp[1][2]) == strip(S) and isA(cp[1][3]):
                 g4.append(g)
-    ctx.ob(['C02', 'C03'], 'R-GUARD', 'G4|size-multiple-of-alignment', len(g4) == 1, 'size % alignment != 0 ⇒ Err on the very size and alignment that are returned', g4[0].where() if g4 else where)
+    ctx.ob(['C02', 'C03', 'C01'], 'R-GUARD', 'G4|size-multiple-of-alignment', len(g4) == 1, 'size % alignment != 0 ⇒ Err on the very size and alignment that are returned', g4[0].where() if g4 else where)
     if g4:
-        ctx.ob(['C02', 'C03'], 'R-DOM', 'G4|covers-non-packed', covers_all_paths(tdb, g4[0], exempt_edges=ptrue), 'on the non-packed branch the test lies on every path to Ok(Some(..))', g4[0].where())
+        ctx.ob(['C02', 'C03', 'C01'], 'R-DOM', 'G4|covers-non-packed', covers_all_paths(tdb, g4[0], exempt_edges=ptrue), 'on the non-packed branch the test lies on every path to Ok(Some(..))', g4[0].where())
     # G2 per-field alignment (in the builder itself, or in a helper whose error the builder propagates)
     def is_g2(g):
         cp = cmp_parts(g.pred)
